@@ -485,7 +485,8 @@ def oracle(W):
         # streams on which no payload ever flowed); whatever it cannot explain is reported
         def weight(vl, P):
             # an end signal of the wrong kind still "explains" more than no end signal at all; prefer real partners
-            return sum(20 if v[0] in ("reset_relayed_as_fin", "fin_truncates_data") else 30 for v in vl) + (1 if P is None else 0)
+            w = {"reset_relayed_as_fin": 20, "fin_truncates_data": 25}
+            return sum(w.get(v[0], 30) for v in vl) + (1 if P is None else 0)
 
         options = {}
         for E in unresolved:
